@@ -25,8 +25,6 @@ def tlsDefaults : List Suite := Model.Suites.tlsDefaultList
 /-- what a TLS 1.2 server with an RSA certificate can serve -/
 def tlsServable (s : Suite) : Bool := Model.Suites.tlsServable .rsa 0x0303 s
 
-def vers : Mode → Nat | .gm => 0x0101 | .tls => 0x0303
-def servable : Mode → Suite → Bool | .gm => gmServable | .tls => tlsServable
 
 /-- what a ticket seals / what both ends keep of a session; `sid` stands for the master secret: the number
     of the connection whose full handshake created it -/
@@ -55,7 +53,19 @@ structure Server where
   disabled : Bool              -- `SessionTicketsDisabled`
   suites : Option (List Suite) -- `Config.CipherSuites`
   auth : Nat                   -- `ClientAuth` 0..4
+  maxVers : Nat := 0x0303      -- `Config.MaxVersion` (TLS mode; the clients speak up to TLS 1.2)
 deriving Repr
+
+/-- the version a connection negotiates: GMSSL 1.1, or the smaller of the two maxima in TLS mode -/
+def vers : Mode → Server → Nat
+  | .gm, _ => 0x0101
+  | .tls, s => min 0x0303 s.maxVers
+
+/-- `setCipherSuite`: what the server can serve at the negotiated version -/
+def servable (m : Mode) (s : Server) (x : Suite) : Bool :=
+  match m with
+  | .gm => gmServable x
+  | .tls => Model.Suites.tlsServable .rsa (vers m s) x
 
 -- LRU cache (front = most recently used) -------------------------------------------------------------------
 
@@ -102,9 +112,9 @@ def checkForResumption (m : Mode) (s : Server) (hello : List Suite) (t : Ticket)
   match decryptTicket s t with
   | none => none
   | some (st, old) =>
-    if vers m != st.vers then none
+    if vers m s != st.vers then none
     else if !hello.contains st.suite then none
-    else if !((resumeSupported s).contains st.suite && servable m st.suite) then none
+    else if !((resumeSupported s).contains st.suite && servable m s st.suite) then none
     else if (s.auth == 2 || s.auth == 4) && st.ccerts == 0 then none
     else if st.ccerts != 0 && s.auth == 0 then none
     else if st.ccerts != 0 && decide (s.auth ≥ 3) && !st.ctrust then none   -- `sessionClientCertsAcceptable` (repair)
@@ -154,13 +164,13 @@ def resumeDecision (m : Mode) (w : World) (r : ConnReq) : Option (Sess × Bool) 
     client-certificate policy is not met) -/
 def fullOutcome (m : Mode) (w : World) (r : ConnReq) : Option Sess :=
   let s := w.srv r.srv
-  match (helloSuites m r.csuites).find? (fun x => (fullSupported m s).contains x && servable m x) with
+  match (helloSuites m r.csuites).find? (fun x => (fullSupported m s).contains x && servable m s x) with
   | none => none
   | some suite =>
     let sent := decide (s.auth ≥ 1) && r.ccert != 0
     if (s.auth == 2 || s.auth == 4) && !sent then none
     else if sent && decide (s.auth ≥ 3) && r.ccert != 1 then none      -- chain verification fails
-    else some ⟨w.n + 1, vers m, suite, if sent then 1 else 0, r.ccert == 1⟩
+    else some ⟨w.n + 1, vers m s, suite, if sent then 1 else 0, r.ccert == 1⟩
 
 /-- the client stores a session when a ticket arrives: on a full handshake if the client has a cache and the
     server issues tickets; on a resumption if the ticket was sealed under an old key (refresh) -/
@@ -188,6 +198,7 @@ inductive Step
   | suites (srv : Nat) (l : Option (List Suite))
   | auth (srv : Nat) (a : Nat)
   | disable (srv : Nat) (b : Bool)
+  | maxv (srv : Nat) (v : Nat)
   | clientOff (b : Bool)
 
 def step (m : Mode) (w : World) : Step → World × Option Outcome
@@ -196,6 +207,7 @@ def step (m : Mode) (w : World) : Step → World × Option Outcome
   | .suites i l => ({ w with srv := setSrv w.srv i { w.srv i with suites := l } }, none)
   | .auth i a => ({ w with srv := setSrv w.srv i { w.srv i with auth := a } }, none)
   | .disable i b => ({ w with srv := setSrv w.srv i { w.srv i with disabled := b } }, none)
+  | .maxv i v => ({ w with srv := setSrv w.srv i { w.srv i with maxVers := v } }, none)
   | .clientOff b => ({ w with clientOff := b }, none)
 
 def run (m : Mode) : World → List Step → List Outcome
@@ -207,6 +219,6 @@ def run (m : Mode) : World → List Step → List Outcome
 
 def initWorld (cap : Nat) : World :=
   { cache := [], cap := if cap < 1 then 64 else cap,
-    srv := fun i => ⟨[100 * (i + 1)], false, none, 0⟩, clientOff := false, n := 0, issued := [] }
+    srv := fun i => ⟨[100 * (i + 1)], false, none, 0, 0x0303⟩, clientOff := false, n := 0, issued := [] }
 
 end Model.Resume
